@@ -210,7 +210,7 @@ const TEXT_VALUES_NUMLEAD: &[&[&str]] = &[&["1", "scant"], &["2", "heaped"], &["
 const TEXT_VALUES_SPACED_UNIT: &[&[&str]] = &[&["2", "1/2", "cups"], &["1", "kg"], &["3", "big", "ones"], &["1", "1/2", "(heaped)", "tbsp"]];
 const NOTE_WORDS: &[&str] = &["finely", "chopped", "sifted", "room", "temperature", "large", "peeled", "crème"];
 // free keys and standard keys whose value may be any text
-const META_KEYS: &[&str] = &["note", "origin", "k1", "my key", "Kategorie", "x", "title", "description", "cuisine", "author", "tags", "course"];
+const META_KEYS: &[&str] = &["note", "origin", "k1", "my key", "Kategorie", "x", "title", "description", "cuisine", "author", "tags", "course", "prep time", "cook time", "locale", "time"];
 const ESCAPABLE: &[char] = &['@', '#', '~', '{', '}', '>', '=', '\\', '-', '['];
 
 #[derive(Clone, Copy, PartialEq, Eq, Debug)]
@@ -249,14 +249,16 @@ pub struct GenOpts {
     pub text_mode_components: bool,
     /// `>> [mode]: steps`-like entries written where MODES is certainly off: they are plain metadata there
     pub bracket_keys_plain: bool,
+    /// standard metadata keys with values outside their documented forms (each gives a documented warning)
+    pub refused_std_values: bool,
 }
 
 impl GenOpts {
     pub fn canonical() -> Self {
-        GenOpts { extended: false, core: true, max_sections: 3, max_blocks: 4, max_items: 7, timers_need_time: false, mix_ref_classes: false, spaced_unit_text: true, text_mode_components: true, bracket_keys_plain: true }
+        GenOpts { extended: false, core: true, max_sections: 3, max_blocks: 4, max_items: 7, timers_need_time: false, mix_ref_classes: false, spaced_unit_text: true, text_mode_components: true, bracket_keys_plain: true, refused_std_values: true }
     }
     pub fn extended() -> Self {
-        GenOpts { extended: true, core: false, max_sections: 3, max_blocks: 4, max_items: 7, timers_need_time: true, mix_ref_classes: false, spaced_unit_text: false, text_mode_components: true, bracket_keys_plain: false }
+        GenOpts { extended: true, core: false, max_sections: 3, max_blocks: 4, max_items: 7, timers_need_time: true, mix_ref_classes: false, spaced_unit_text: false, text_mode_components: true, bracket_keys_plain: false, refused_std_values: true }
     }
     /// extended, with references free to change the quantity class (not warning-free)
     pub fn extended_mixed() -> Self {
@@ -264,7 +266,7 @@ impl GenOpts {
     }
     /// the subset C02 calls core syntax
     pub fn core() -> Self {
-        GenOpts { extended: false, core: true, max_sections: 3, max_blocks: 4, max_items: 7, timers_need_time: true, mix_ref_classes: false, spaced_unit_text: false, text_mode_components: true, bracket_keys_plain: false }
+        GenOpts { extended: false, core: true, max_sections: 3, max_blocks: 4, max_items: 7, timers_need_time: true, mix_ref_classes: false, spaced_unit_text: false, text_mode_components: true, bracket_keys_plain: false, refused_std_values: true }
     }
 }
 
@@ -749,6 +751,12 @@ pub fn gen_spec(rng: &mut Rng, o: &GenOpts) -> Spec {
             g.mode_components = true;
             let k = g.rng.range(1, 3);
             for _ in 0..k {
+                if g.rng.chance(1, 4) {
+                    // a text paragraph inside the components region stays (only the steps are dropped there)
+                    let p = g.para();
+                    blocks.push(Block::Para(p));
+                    g.section_has_content = true;
+                }
                 let st = g.step();
                 blocks.push(Block::Step(st));
             }
@@ -771,8 +779,15 @@ pub fn gen_spec(rng: &mut Rng, o: &GenOpts) -> Spec {
                     } else {
                         g.rng.pick(META_KEYS).split(' ').map(|s| s.to_string()).collect()
                     };
-                    let value = if matches!(key[0].as_str(), "servings" | "serves" | "yield") {
+                    let is_servings = matches!(key[0].as_str(), "servings" | "serves" | "yield");
+                    if !o.refused_std_values && !is_servings && matches!(key.join(" ").as_str(), "prep time" | "cook time" | "time" | "locale") {
+                        continue;
+                    }
+                    let value = if is_servings && (!o.refused_std_values || !g.rng.chance(1, 5)) {
                         vec![g.rng.pick(&["2", "4", "2|4|8", "12", "4|2", "6|3|12", "10|5"]).to_string()]
+                    } else if is_servings || matches!(key.join(" ").as_str(), "prep time" | "cook time" | "time" | "locale") {
+                        // a standard key with a value outside its documented forms: a warning, the entry stays as text
+                        words(g.rng, &["overnight", "english", "one", "big", "family", "soon", "a", "while"], 1, 3)
                     } else if key[0].starts_with('[') {
                         vec![g.rng.pick(&["ref", "steps", "components", "text", "new", "reference", "ingredients"]).to_string()]
                     } else {
@@ -1553,7 +1568,7 @@ impl<'a> Sp<'a> {
             }
         }
         self.cur_content.push(json!({"type": "text", "value": exp}));
-        self.constructs.push("paragraph");
+        self.constructs.push(if self.mode == 1 { "paragraph_in_components_mode" } else { "paragraph" });
     }
 
     fn section(&mut self, name: &Option<Vec<String>>) {
@@ -1647,7 +1662,8 @@ impl<'a> Sp<'a> {
             let parsed: Option<Vec<u32>> = value.split('|').map(|p| p.trim().parse::<u32>().ok()).collect();
             match parsed {
                 Some(v) => self.servings = Some(v),
-                None => self.reject = Some("bad servings".into()),
+                // refused value: a warning; the entry stays in the metadata, the servings of the recipe stay what they were
+                None => self.constructs.push("refused_servings_entry_kept_as_text"),
             }
         }
         self.constructs.push(if key.starts_with('[') { "bracketed_key_as_plain_metadata" } else { "arrow_metadata" });
@@ -1791,6 +1807,13 @@ pub fn spell(spec: &Spec, seed: u64, mask: u32, level: u32) -> Spelled {
     };
     s.enter(u64::MAX, 0);
     if let Some(f) = &spec.front {
+        // white-space-only lines may come before the opening fence
+        if s.opt(feat::LEADING_BLANK, 1, 6) {
+            s.emit("\n");
+            if s.rng.coin() {
+                s.emit(" \t\n");
+            }
+        }
         s.front_matter(f);
     } else if s.opt(feat::LEADING_BLANK, 1, 6) {
         s.emit("\n");
